@@ -6,10 +6,12 @@ use std::sync::atomic::{AtomicU64, AtomicUsize, Ordering};
 use std::sync::{Arc, Mutex};
 
 /// Byte source with a cursor and a call counter.  Byte at absolute position p
-/// is script[p mod len].  Every delivery is logged as (method, bytes).
+/// is 0 for p < lead and script[(p - lead) mod len] afterwards.  Every delivery is logged as (method, bytes).
 #[derive(Clone, Debug)]
 pub struct ByteSource {
     pub script: Vec<u8>,
+    /// the first `lead` bytes delivered are zero; the script starts after them
+    pub lead: usize,
     pub pos: usize,
     pub calls: usize,
     pub log: Vec<(&'static str, usize)>,
@@ -20,6 +22,7 @@ impl ByteSource {
         assert!(!script.is_empty());
         ByteSource {
             script,
+            lead: 0,
             pos: 0,
             calls: 0,
             log: Vec::new(),
@@ -27,7 +30,7 @@ impl ByteSource {
     }
     fn take(&mut self, dest: &mut [u8]) {
         for d in dest.iter_mut() {
-            *d = self.script[self.pos % self.script.len()];
+            *d = if self.pos < self.lead { 0 } else { self.script[(self.pos - self.lead) % self.script.len()] };
             self.pos += 1;
         }
     }
